@@ -9,6 +9,19 @@ add("C19", "exploration",
     "Trusts the 12-entry reference pairing table in pmc/props/c19.py and that input graphs have the shape polyply's "
     "readers produce (integer keys in order).", "§4 C19")
 
+add("C16", "model_checking",
+    "explicit-state BFS to closure over real NonBondEngine method calls, reference model compared in every state",
+    "Breadth-first search over all add/remove/consolidate histories of a live NonBondEngine (2-4 nodes in 1-2 molecules, "
+    "4 candidate points incl. one across the periodic boundary and one below the 0.1 nm floor, start flag, all node "
+    "subsets for removal), run until no new canonical state appears, in cubic and orthorhombic boxes and with 5001 "
+    "pre-loaded static points so that the multi-tree branch is taken. After every transition the four internal views are "
+    "compared with a dict reference; in every distinct state all probe x node x exclusion-subset force queries are compared "
+    "with brute-force minimum-image 12-6 gradients. Closure means every history of any length over this alphabet ends "
+    "in a checked state.",
+    "Trusts the brute-force reference in pmc/props/c16.py; candidate points are off the 0.1 nm / cut-off thresholds; "
+    "rectangular boxes only; state copies share immutable KD-trees (faithfulness checked by replaying a history on a fresh engine).",
+    "§3 C16")
+
 for _p in ["C01", "C02", "C03", "C04", "C05", "C06", "C07", "C08", "C09", "C10", "C11", "C12", "C13", "C14",
-           "C15", "C16", "C17", "C18", "C20"]:
+           "C15", "C17", "C18", "C20"]:
     NOT_YET[_p] = "check under construction in this session (bounded exhaustive exploration applies; see DESIGN.md)"
